@@ -68,6 +68,34 @@ def method_args(method, gen=None):
     return method, {}
 
 
+COSTS = ["plain", "classical-rows", "two-qnodes"]
+
+
+def _compose(cfg, x, rows, reshape, sin, again):
+    """The differentiated cost: the flattened QNode results, optionally stacked BEHIND two purely classical rows (their cotangents reach
+    the QNode as zeros) or followed by a second evaluation of the same QNode (each QNode sees zero cotangents for the other's rows)."""
+    cost = cfg.get("cost", "plain")
+    if cost == "classical-rows":
+        return [reshape(x[0] ** 2, (-1,)), reshape(sin(x[-1]), (-1,))] + rows
+    if cost == "two-qnodes":
+        r2 = again()
+        r2 = r2 if isinstance(r2, tuple) else (r2,)
+        return rows + [reshape(t, (-1,)) for t in r2]
+    return rows
+
+
+def compose_reference(cfg, Jq, z):
+    cost = cfg.get("cost", "plain")
+    if cost == "classical-rows":
+        top = np.zeros((2, Jq.shape[1]))
+        top[0, 0] = 2 * z[0]
+        top[1, -1] += np.cos(z[-1])
+        return np.vstack([top, Jq])
+    if cost == "two-qnodes":
+        return np.vstack([Jq, Jq])
+    return Jq
+
+
 def jacobian(spec, cfg, gen=None):
     """Jacobian (M x nargs) of the flattened QNode results under the configuration; raises what PennyLane raises."""
     import pennylane as qp
@@ -97,7 +125,7 @@ def jacobian(spec, cfg, gen=None):
         def f(x):
             r = qn(x)
             r = r if isinstance(r, tuple) else (r,)
-            return anp.concatenate([anp.reshape(t, (-1,)) for t in r])
+            return anp.concatenate(_compose(cfg, x, [anp.reshape(t, (-1,)) for t in r], anp.reshape, anp.sin, lambda: qn(x)))
 
         return np.asarray(qp.jacobian(f)(anp.array(z, requires_grad=True)), dtype=float)
     if iface in ("jax", "jax-jit"):
@@ -109,7 +137,7 @@ def jacobian(spec, cfg, gen=None):
         def f(x):
             r = qn(x)
             r = r if isinstance(r, tuple) else (r,)
-            return jnp.concatenate([jnp.reshape(t, (-1,)) for t in r])
+            return jnp.concatenate(_compose(cfg, x, [jnp.reshape(t, (-1,)) for t in r], jnp.reshape, jnp.sin, lambda: qn(x)))
 
         jf = jax.jacobian(f)
         if iface == "jax-jit":
@@ -121,7 +149,7 @@ def jacobian(spec, cfg, gen=None):
         def f(x):
             r = qn(x)
             r = r if isinstance(r, tuple) else (r,)
-            return torch.cat([torch.reshape(t, (-1,)) for t in r])
+            return torch.cat(_compose(cfg, x, [torch.reshape(t, (-1,)) for t in r], torch.reshape, torch.sin, lambda: qn(x)))
 
         J = torch.autograd.functional.jacobian(f, torch.tensor(z, dtype=torch.float64, requires_grad=True))
         return np.asarray(J.detach().numpy(), dtype=float)
@@ -224,9 +252,10 @@ def check(spec):
                            "Jacobian or documented rejection")
             raise
         return skip(f"{method}:{r}")
-    Jref = XD.ref_jacobian(circ)
+    Jref = compose_reference(cfg, XD.ref_jacobian(circ), np.asarray(XD.z0(circ), dtype=float))
     tol = TOL.get(method, 1e-7)
-    cls = f"{cfg['iface']}:{method}" + (":goe=%s" % cfg["goe"] if cfg.get("goe", "best") != "best" else "") + (":dvjp" if cfg.get("dvjp") else "")
+    cls = (f"{cfg['iface']}:{method}" + (":goe=%s" % cfg["goe"] if cfg.get("goe", "best") != "best" else "") + (":dvjp" if cfg.get("dvjp") else "")
+           + ("" if cfg.get("cost", "plain") == "plain" else ":cost=" + cfg["cost"]))
     cul = culprit(circ, cfg)
     feat = ("bcast:" if circ.get("bcast") else "") + ("" if circ["lab"] == "std" else "labels:") + ("const-gate:" if "cRY" in circ["w"] else "")
     where = cul if cul else f"{feat}{circ['share']}:{circ['meas']}:{'+'.join(sorted(set(circ['w'])))}"
@@ -305,6 +334,17 @@ def run(ctx):
                             continue
                         specs.append({"c": c, "cfg": {"iface": iface, "method": m, "goe": goe, "dvjp": dvjp}})
     ctx.enumerate(specs, axis="config-product", chunk=6)
+    # (2b) composite costs: classical rows / a second QNode next to the QNode's rows (zero cotangent blocks reach the VJP machinery)
+    specs = []
+    for c in FULL_PRODUCT_CIRCS[: 3 if q else 5]:
+        if c.get("bcast"):
+            continue
+        for iface in ("autograd", "jax", "torch") + (() if q else ("jax-jit",)):
+            for m in (("backprop", "parameter-shift", "adjoint", "hadamard", "finite-diff") if q else [x for x in METHODS if not x.startswith("spsa")]):
+                for dvjp in (False, True):
+                    for cost in COSTS[1:]:
+                        specs.append({"c": c, "cfg": {"iface": iface, "method": m, "goe": "best", "dvjp": dvjp, "cost": cost}})
+    ctx.enumerate(specs, axis="composite-costs", chunk=6)
     # (3) other interfaces on a larger circuit family, main methods
     fam = [c for i, c in enumerate(circs) if i % (40 if q else 9) == 0]
     specs = [{"c": c, "cfg": {"iface": iface, "method": m}} for c in fam for iface in ("jax", "torch") for m in
